@@ -45,7 +45,7 @@ func run(args []string) {
 	var pats multi
 	fs.Var(&pats, "pkg", "package pattern to load (repeatable)")
 	only := fs.String("harness", "", "comma-separated harness function names (default: all)")
-	solver := fs.String("solver", "z3", "z3 | z3-new | cvc5")
+	solver := fs.String("solver", "cvc5", "z3 | z3-new | cvc5")
 	timeout := fs.Int("qtimeout", 60000, "per-query timeout (ms)")
 	budget := fs.Duration("budget", 0, "wall-time budget per harness (0 = none)")
 	out := fs.String("out", "", "write JSON results to this file")
